@@ -114,10 +114,15 @@ def rfc_max_age(s):
 class RefStore:
     """RFC 6265 section 5.3 storage model + 5.4 retrieval, for what this property is about."""
 
-    def __init__(self):
+    def __init__(self, unsafe=False):
         self.cookies = []    # dicts: name value domain path host_only secure expiry src
+        self.unsafe = unsafe
+        self.gone = {}       # value -> why the reference store does not hold that cookie (for diagnostics)
 
     def set(self, host, upath, a, now, src):
+        if not self.unsafe and rfc_is_ip(host):
+            self.gone[a["value"]] = f"never stored: response host {host} is an IP address and the jar is not unsafe"
+            return                    # 5.2: a user agent MAY ignore Set-Cookie; the jar's policy is "from IP hosts, unless unsafe"
         dom = a["domain"] or ""
         if dom.endswith("."):            # the jar ignores such an attribute; adopted by the reference
             dom = ""
@@ -126,6 +131,7 @@ class RefStore:
         dom = dom.lower()
         if dom:
             if not rfc_domain_match(dom, host):
+                self.gone[a["value"]] = f"never stored: response host {host} does not domain-match Domain={dom}"
                 return                    # 5.3 step 6: ignore the cookie entirely
             host_only, domain = False, dom
         else:
@@ -140,13 +146,21 @@ class RefStore:
             expiry = None
         c = dict(name=a["name"], value=a["value"], domain=domain, path=path, host_only=host_only,
                  secure=bool(a["secure"]), expiry=expiry, src=src)
+        for x in self.cookies:
+            if (x["name"], x["domain"], x["path"]) == (c["name"], domain, path):
+                self.gone[x["value"]] = f"replaced by {c['name']}={c['value']} (same name, domain {domain}, path {path})"
         self.cookies = [x for x in self.cookies if (x["name"], x["domain"], x["path"]) != (c["name"], domain, path)]
         self.cookies.append(c)
 
     def clear(self):
+        for x in self.cookies:
+            self.gone[x["value"]] = "removed by clear()"
         self.cookies = []
 
     def clear_domain(self, d):
+        for x in self.cookies:
+            if rfc_domain_match(d, x["domain"]):
+                self.gone[x["value"]] = f"removed by clear_domain({d})"
         self.cookies = [c for c in self.cookies if not rfc_domain_match(d, c["domain"])]
 
     @staticmethod
@@ -205,8 +219,43 @@ class Gen:
         r = self.rng
         return [r.choice(SCHEMES), r.choice(HOSTS if r.random() < 0.7 else HOSTS[:4]), r.choice(paths)]
 
+    def focused(self):
+        """Few hosts, one or two names, short deadlines: histories in which cookies collide on (domain, name),
+        are overwritten across host-only / Domain=, expire one by one and go through save+load."""
+        r = self.rng
+        self.n = 0
+        ops, now = [], T0
+        hosts = r.choice([["example.com", "sub.example.com"], ["example.com", "sub.example.com", "a.sub.example.com"],
+                          ["example.com.", "example.com"], ["1.2.3.4", "x.1.2.3.4", "3.4"]])
+        names = r.choice([["a"], ["a", "b"]])
+        for _ in range(r.randint(4, 14)):
+            x = r.random()
+            if x < 0.5:
+                self.n += 1
+                h = r.choice(hosts)
+                a = dict(name=r.choice(names), value=f"v{self.n}", domain=r.choice([None, None, hosts[0], "." + hosts[0], h]),
+                         path=r.choice([None, "/foo", "/bar", "/foo/", "/foo/bar"]), secure=r.random() < 0.15,
+                         max_age=r.choice([None, None, "5", "10", "0"]), expires=None)
+                if a["max_age"] is None and r.random() < 0.3:
+                    t = now + r.choice([5, 10, -5])
+                    a["expires"] = (http_date(t), t)
+                ops.append(["set", [r.choice(["http", "https"]), h, r.choice(["/", "/foo/x", "/bar"])], [a]])
+            elif x < 0.68:
+                dt = r.choice([1, 5, 5, 6, 10])
+                now += dt
+                ops.append(["advance", dt])
+            elif x < 0.80:
+                ops.append(["save_load"])
+            elif x < 0.85:
+                ops.append(["clear_domain", r.choice(hosts)])
+            else:
+                ops.append(["filter", [r.choice(["http", "https"]), r.choice(hosts), r.choice(["/", "/foo", "/bar", "/foo/bar"])]])
+        return {"unsafe": hosts[0][0].isdigit() or r.random() < 0.1, "t0": T0, "ops": ops, "sweep": True}
+
     def history(self):
         r = self.rng
+        if r.random() < 0.3:
+            return self.focused()
         self.n = 0
         ops = []
         now = T0
@@ -291,7 +340,7 @@ def run_impl(case, tmpdir):
     viol = []
     try:
         jar = cj.CookieJar(unsafe=case["unsafe"])
-        ref = RefStore()
+        ref = RefStore(case["unsafe"])
         words = []
         impl_out, ref_out, queries = [], [], []
         for idx, op in enumerate(ops):
@@ -373,7 +422,7 @@ def run_impl(case, tmpdir):
                             diag = {"kind": why, "cookie": {k: c[k] for k in ("name", "domain", "path", "host_only", "secure", "expiry")},
                                     "attrs": a, "set_by": src[1], "now": clock.t}
                         else:
-                            diag = {"kind": "not_in_reference_store", "now": clock.t}
+                            diag = {"kind": "not_in_reference_store", "why": ref.gone.get(nv[1], "unknown value"), "now": clock.t}
                         viol.append((idx, list(nv), diag,
                                      f"{sch}://{h}{p} at t={clock.t}: cookie {nv[0]}={nv[1]} attached, but RFC 6265 forbids it "
                                      f"({diag['kind']}): {json.dumps(diag, default=str)[:400]}"))
@@ -529,7 +578,7 @@ def check_history(ctx, exe, case, tmpdir, suite, result=None, model_ans=None):
             ctx.count("undersend(benign, not a violation)")
     for v in viol:
         vc, what = violation_case(case, v)
-        if not is_known(vc) and len(ctx.violations) < 3:
+        if not is_known(vc) and len(ctx.violations) < 2:
             small, sv = shrink(case, v[2].get("kind"), tmpdir)
             if sv is not None:
                 vc, what = violation_case(small, sv)
@@ -553,7 +602,7 @@ def suite_domain_match(ctx, exe):
         ctx.case(("dm", d, h, got), nontrivial=got)
         if a.split()[0] != ("1" if got else "0"):
             ctx.disagreement("domain_match", {"domain": d, "host": h}, a, got)
-        if got and not rfc_domain_match(d, h):
+        if got and d and not rfc_domain_match(d, h) and len(ctx.violations) < 8:
             ctx.violation({"suite": "domain_match", "domain": d, "host": h, "diag": {"kind": "domain_match"}},
                           f"_is_domain_match({d!r}, {h!r}) is True but {h!r} does not domain-match {d!r} (RFC 6265 5.1.3)")
     for h, a in zip(doms + hosts, ans[len(pairs):]):
@@ -588,7 +637,6 @@ def run(ctx):
         pass
     if gen_max is not None and gen_max != cj.CookieJar.MAX_TIME:
         ctx.oblige("translator:MAX_TIME-value", "translator", False, f"generated {gen_max} != runtime {cj.CookieJar.MAX_TIME}")
-    suite_domain_match(ctx, exe)
     with tempfile.TemporaryDirectory(prefix="c16-") as tmpdir:
         n = 0
         for name, case in load_corpus():
@@ -615,6 +663,7 @@ def run(ctx):
         ctx.close_suite("history", n)
         ctx.close_suite("reference_store", n)
         ctx.traces_validated += len(cases)
+    suite_domain_match(ctx, exe)
 
 
 def replay(ctx, case):
